@@ -6,7 +6,7 @@ CONSTANTS
   Callers = {c1, c2}
   MaxOps = 1
   LateOps = 0
-  Ops = {"batchS", "batchU", "search", "close"}
+  Ops = {"batchS", "search", "close"}
   Engine = "disk"
   MaxMerges = 0
   PauseMode = "none"
